@@ -54,10 +54,12 @@ def native_replay(crate_dir, runner, spec, prop):
         open(path, "w").write("harness %s failed under Kani but no concrete playback test was generated\n%s\n" % (spec.fq, r.log[-4000:]))
         return False, path, "no playback test generated"
     srcfile = os.path.join(crate_dir, "src", spec.fq.split("::")[0] + ".rs")
+    if not os.path.exists(srcfile):
+        srcfile = os.path.join(crate_dir, "src", "lib.rs")      # harness module appended to the crate root
     text0 = open(srcfile).read()
     cut = text0.rstrip().rfind("}")
     body = "\n".join(b for n, b in tests.items() if ("fn " + n + "(") not in text0)
-    open(srcfile, "w").write(text0[:cut] + "\n" + body + "\n}\n")
+    open(srcfile, "w").write(text0[:cut] + "\n" + body + "\n}" + text0[cut + 1:])
     out_all = []
     reproduced = False
     for prof in ([],):  # cargo kani playback (0.68) has no --release; dev is the profile Kani models
